@@ -390,7 +390,7 @@ pub fn run(tier: &str, replay: Option<&str>) -> i32 {
             }
             crate::c07r::check_program(p, bound, max_execs, &mut rs);
         }
-        vcore::par::worker_emit(&json!({"programs":rs.programs,"executions":rs.executions,"points":rs.points,"capped":rs.capped,"hits":rs.epilogue_hits,"misses":rs.epilogue_misses,"outcomes":rs.outcomes.iter().collect::<Vec<_>>(),"violations":rs.viol.to_json()}));
+        vcore::par::worker_emit(&json!({"programs":rs.programs,"executions":rs.executions,"points":rs.points,"capped":rs.capped,"incomplete":rs.incomplete,"hits":rs.epilogue_hits,"misses":rs.epilogue_misses,"outcomes":rs.outcomes.iter().collect::<Vec<_>>(),"violations":rs.viol.to_json()}));
         return 0;
     }
     let depth: usize = std::env::var("C07_DEPTH").ok().and_then(|s| s.parse().ok()).unwrap_or(if tier == "thorough" { 5 } else { 4 });
@@ -427,7 +427,7 @@ pub fn run(tier: &str, replay: Option<&str>) -> i32 {
     let mut rep = Reporter::new("C07");
     rep.report_sigbag(&tot.viol);
     for r in &rres {
-        for k in ["programs", "executions", "points", "capped", "hits", "misses"] {
+        for k in ["programs", "executions", "points", "capped", "incomplete", "hits", "misses"] {
             *rt.entry(k).or_insert(0) += r[k].as_u64().unwrap_or(0);
         }
         for o in r["outcomes"].as_array().unwrap() {
@@ -442,6 +442,7 @@ pub fn run(tier: &str, replay: Option<&str>) -> i32 {
     ev.set("race_programs", rt["programs"]);
     ev.set("race_executions", rt["executions"]);
     ev.set("race_programs_capped", rt["capped"]);
+    ev.set("race_executions_not_completed", rt["incomplete"]);
     ev.set("race_epilogue_cache_hits_judged", rt["hits"]);
     ev.set("race_epilogue_cache_misses", rt["misses"]);
     ev.set("race_distinct_epilogue_outcomes", routcomes.len() as u64);
